@@ -622,13 +622,13 @@ abbrev OutOK (e : Entry MCond Out) : Prop := outOK e = true
 
 /-- position bookkeeping of the domain bitmap: bit `pos` of `MatchDomainBitmap(domain)` is the truth
 of the key group that the match set at position `pos` stands for (C01 `Position`, C11). -/
-def domOK (ubm : List Nat) (p : Pkt) : Nat → List (Entry MCond Out) → Bool
+def domOK (ubm : List Nat) (p : C01.Pkt) : Nat → List (Entry MCond Out) → Bool
   | _, [] => true
   | pos, e :: es =>
     (match e.cond with
      | .domainSet j => bitmapBit ubm pos == p.dom.getD j false
      | _ => true) && domOK ubm p (pos + 1) es
-abbrev DomOK (ubm : List Nat) (p : Pkt) (pos : Nat) (es : List (Entry MCond Out)) : Prop := domOK ubm p pos es = true
+abbrev DomOK (ubm : List Nat) (p : C01.Pkt) (pos : Nat) (es : List (Entry MCond Out)) : Prop := domOK ubm p pos es = true
 
 theorem scan_head_congr {κ κ' : Type} (ev : κ → Bool) (ev' : κ' → Bool) (c : κ) (c' : κ') (neg : Bool)
     (tail : Tail Out) (rest : List (Entry κ Out)) (rest' : List (Entry κ' Out)) (h1 : ev c = ev' c')
@@ -651,19 +651,19 @@ theorem tailOf_mkK (e : Entry MCond Out) (c : KCond) (h : OutOK e) : tailOf (mkK
     obtain ⟨⟨h1, h2⟩, h3⟩ := h
     simp [h1, h2, h3]
 
-theorem kcond_some (p : Pkt) (wan : Bool) (ubm : List Nat) (next pos : Nat) (mc : MCond) (c : KCond) (ps : List Prefix)
+theorem kcond_some (p : C01.Pkt) (wan : Bool) (ubm : List Nat) (next pos : Nat) (mc : MCond) (c : KCond) (ps : List Prefix)
     (tries : List (List Prefix)) (h : kcondOf next mc = (c, some ps)) (ht : tries[next]? = some ps) :
     evalU tries ubm (toK p wan) (pos, c) = evalM p mc := by
   cases mc <;> simp [kcondOf] at h <;> obtain ⟨rfl, rfl⟩ := h <;> simp [evalU, evalM, ht, toK]
 
-theorem kcond_none (p : Pkt) (wan : Bool) (ubm : List Nat) (next pos : Nat) (mc : MCond) (c : KCond)
+theorem kcond_none (p : C01.Pkt) (wan : Bool) (ubm : List Nat) (next pos : Nat) (mc : MCond) (c : KCond)
     (tries : List (List Prefix)) (h : kcondOf next mc = (c, none))
     (hd : ∀ j, mc = .domainSet j → bitmapBit ubm pos = p.dom.getD j false) :
     evalU tries ubm (toK p wan) (pos, c) = evalM p mc := by
   cases mc <;> simp [kcondOf] at h <;> subst h <;> simp [evalU, evalM, toK]
   case domainSet j => exact hd j rfl
 
-theorem assign_scan (p : Pkt) (wan : Bool) (ubm : List Nat) :
+theorem assign_scan (p : C01.Pkt) (wan : Bool) (ubm : List Nat) :
     ∀ (es : List (Entry MCond Out)) (next pos : Nat) (pre : List (List Prefix)) (g b mu : Bool),
       pre.length = next → (∀ e ∈ es, OutOK e) → DomOK ubm p pos es →
       scanAux (evalU (pre ++ (assignFrom next es).2) ubm (toK p wan)) (toEntriesFrom pos (assignFrom next es).1) g b mu =
@@ -1061,7 +1061,7 @@ theorem getElem?_append_ext {α : Type} (l ext : List α) (i : Nat) (x : α) (h 
   rw [List.getElem?_append_left (List.getElem?_eq_some_iff.mp h).1]; exact h
 
 theorem kcondShare_spec (hash : List Prefix → Nat) (b : Builder) (hinv : b.Inv) (mc : MCond)
-    (p : Pkt) (wan : Bool) (ubm : List Nat) (pos : Nat)
+    (p : C01.Pkt) (wan : Bool) (ubm : List Nat) (pos : Nat)
     (hd : ∀ j, mc = .domainSet j → bitmapBit ubm pos = p.dom.getD j false) :
     (kcondShare hash b mc).2.Inv ∧ (∃ ext, (kcondShare hash b mc).2.tries = b.tries ++ ext) ∧
     ∀ T ext, T = (kcondShare hash b mc).2.tries ++ ext →
@@ -1105,7 +1105,7 @@ theorem kcondShare_spec (hash : List Prefix → Nat) (b : Builder) (hinv : b.Inv
   | dscp v => exact ⟨hinv, ⟨[], by simp [kcondShare]⟩, fun T ext _ => by simp [kcondShare, kcondOf, evalU, evalM, toK]⟩
   | fallback => exact ⟨hinv, ⟨[], by simp [kcondShare]⟩, fun T ext _ => by simp [kcondShare, kcondOf, evalU, evalM, toK]⟩
 
-theorem assignShare_scan (hash : List Prefix → Nat) (p : Pkt) (wan : Bool) (ubm : List Nat) :
+theorem assignShare_scan (hash : List Prefix → Nat) (p : C01.Pkt) (wan : Bool) (ubm : List Nat) :
     ∀ (es : List (Entry MCond Out)) (b : Builder) (pos : Nat), b.Inv → (∀ e ∈ es, OutOK e) → DomOK ubm p pos es →
       (assignShare hash b es).2.Inv ∧ (∃ ext, (assignShare hash b es).2.tries = b.tries ++ ext) ∧
       ∀ T ext, T = (assignShare hash b es).2.tries ++ ext → ∀ g bd mu,
